@@ -257,8 +257,7 @@ fn prom_oracle(req: &[wire::GSeries], conv: &str, lossy: bool) -> Vec<String> {
         bad.push("unreadable batch".into());
         return bad;
     };
-    let cols: Vec<Vec<u8>> = cols.split(',').filter(|c| !c.is_empty() || cols == "").map(unhex).collect();
-    let cols: Vec<Vec<u8>> = if body.starts_with("cols=|") { vec![] } else { cols };
+    let cols: Vec<Vec<u8>> = cols.split(',').filter(|c| !c.is_empty()).map(|c| unhex(&c[1..])).collect();
     let rows: Vec<&str> = if rows.is_empty() { vec![] } else { rows.split('/').collect() };
     if rows.len() != total {
         bad.push(format!("{} samples became {} rows", total, rows.len()));
@@ -308,7 +307,7 @@ fn prom_oracle(req: &[wire::GSeries], conv: &str, lossy: bool) -> Vec<String> {
             }
             for (c, cell) in cols.iter().zip(cells.iter()) {
                 let want = t.labels.iter().rev().find(|l| fix(&l.name) == *c).map(|l| fix(&l.value));
-                let got = if *cell == "~" { None } else { Some(unhex(cell)) };
+                let got = if *cell == "~" { None } else { Some(unhex(&cell[1..])) };
                 if want != got {
                     bad.push(format!(
                         "series {} sample {}: label {:?} = {:?} stored as {:?}",
@@ -327,38 +326,48 @@ fn show(v: &[Vec<u8>]) -> Vec<String> {
 // ============================================================ handler path
 struct HandlerEnv {
     rt: tokio::runtime::Runtime,
-    state: cardinalsin::api::ApiState,
+    query_node: Arc<cardinalsin::query::QueryNode>,
+    /// ingester that flushes every write, so the batch that reached it can be observed
+    flushing: Arc<cardinalsin::ingester::Ingester>,
     rx: tokio::sync::broadcast::Receiver<arrow_array::RecordBatch>,
+    pub t_post: f64,
 }
 impl HandlerEnv {
     fn new() -> HandlerEnv {
         let rt = tokio::runtime::Builder::new_current_thread().enable_all().build().unwrap();
-        let (state, rx) = rt.block_on(async {
+        let (qn, ing, rx) = rt.block_on(async {
             use cardinalsin::metadata::LocalMetadataClient;
             use cardinalsin::query::{QueryConfig, QueryNode};
             let ing = mk_ingester(1);
             let rx = ing.subscribe();
             let store: Arc<dyn object_store::ObjectStore> = Arc::new(object_store::memory::InMemory::new());
             let qn = QueryNode::new(QueryConfig::default(), store, Arc::new(LocalMetadataClient::new()), cardinalsin::StorageConfig::default()).await.expect("query node");
-            (cardinalsin::api::ApiState { ingester: ing, query_node: Arc::new(qn) }, rx)
+            (Arc::new(qn), ing, rx)
         });
-        HandlerEnv { rt, state, rx }
+        HandlerEnv { rt, query_node: qn, flushing: ing, rx, t_post: 0.0 }
     }
-    /// POST body -> (status | PANIC, flushed batches in canonical text)
-    fn post(&mut self, body: Vec<u8>) -> (String, Vec<String>) {
+    /// POST body -> (status | PANIC, rows buffered by the ingester, flushed batches in canonical text).
+    /// `observe_rows`: use the flushing ingester (slower) so that the stored rows can be read back;
+    /// otherwise a fresh ingester whose buffer row count is reported.
+    fn post(&mut self, body: Vec<u8>, observe_rows: bool) -> (String, usize, Vec<String>) {
         use axum::response::IntoResponse;
-        let st = self.state.clone();
-        let r = self.rt.block_on(async move {
+        let t0 = std::time::Instant::now();
+        let ing = if observe_rows { self.flushing.clone() } else { mk_ingester(1_000_000) };
+        let st = cardinalsin::api::ApiState { ingester: ing.clone(), query_node: self.query_node.clone() };
+        let (r, buffered) = self.rt.block_on(async move {
             let h = tokio::spawn(async move {
                 cardinalsin::api::ingest::prometheus::handle_remote_write(axum::extract::State(st), axum::body::Bytes::from(body)).await.into_response().status().as_u16()
             });
-            h.await
+            let r = h.await;
+            let rows = ing.buffer_stats().await.row_count;
+            (r, rows)
         });
         let mut flushed = Vec::new();
         while let Ok(b) = self.rx.try_recv() {
             flushed.push(canon::canon_batch(&b));
         }
-        (match r { Ok(s) => s.to_string(), Err(_) => "PANIC".into() }, flushed)
+        self.t_post += t0.elapsed().as_secs_f64();
+        (match r { Ok(s) => s.to_string(), Err(_) => "PANIC".into() }, buffered, flushed)
     }
 }
 
@@ -367,19 +376,25 @@ struct Ctx {
     model: Model,
     worker: Worker,
     report: Report,
+    t_model: f64,
+    t_worker: f64,
 }
 
 impl Ctx {
     /// one remote-write byte string through implementation and model; returns
     /// (impl parse out, impl combined out, disagreement?)
     fn check_bytes(&mut self, bytes: &[u8], origin: &str) -> (String, String, bool) {
+        let t0 = std::time::Instant::now();
         let (ip, ic) = impl_prom(&mut self.worker, bytes);
+        self.t_worker += t0.elapsed().as_secs_f64();
         self.report.impl_runs += 1;
         let h = hex(bytes);
+        let t1 = std::time::Instant::now();
         let (d1, mp) = self.model.differs(&format!("P d {}", h), &ip);
         let (d2, mc) = self.model.differs(&format!("C d {}", h), &ic);
         // the release-build model must agree with the debug-build model on the current code
         let mr = self.model.ask(&format!("P r {}", h));
+        self.t_model += t1.elapsed().as_secs_f64();
         let d3 = !self.model.is_null() && mr != mp;
         if d1 || d2 || d3 {
             let shrunk = ddmin(bytes, &mut |cand: &[u8]| {
@@ -452,7 +467,7 @@ fn replay(args: &Args, path: &str) -> ! {
         "handler" => {
             let body = unhex(case["body_hex"].as_str().unwrap_or(""));
             let mut env = HandlerEnv::new();
-            let (st, fl) = env.post(body.clone());
+            let (st, _, fl) = env.post(body.clone(), true);
             let dec = snap::raw::Decoder::new().decompress_vec(&body).ok();
             let ms = model.ask(&format!("H d {}", dec.as_ref().map(|d| hex(d)).unwrap_or("-".into())));
             println!("status impl {} model {}\nflushed {:?}", st, ms, fl);
@@ -512,14 +527,29 @@ fn main() {
     let thorough = args.thorough();
     let n_structured = if thorough { 40_000 } else { 2_000 };
     let n_malformed = if thorough { 150_000 } else { 5_000 };
-    let n_handler = if thorough { 3_000 } else { 300 };
+    let n_handler = if thorough { 2_000 } else { 150 };
     let n_otlp = if thorough { 20_000 } else { 1_200 };
     let n_otlp_bytes = if thorough { 20_000 } else { 1_000 };
     let n_flight = if thorough { 6_000 } else { 400 };
+    // `--only prom|otlp|flight` restricts the run to one protocol (debugging aid)
+    let only = args.get("only").unwrap_or("").to_string();
+    let (n_structured, n_malformed) = if only.is_empty() || only == "prom" { (n_structured, n_malformed) } else { (0, 0) };
+    let (n_otlp, n_otlp_bytes) = if only.is_empty() || only == "otlp" { (n_otlp, n_otlp_bytes) } else { (0, 0) };
+    let n_flight = if only.is_empty() || only == "flight" { n_flight } else { 0 };
 
-    let mut cx = Ctx { model: Model::spawn(&args.model), worker: Worker::spawn(), report: Report::new("C17") };
+    let mut cx = Ctx { model: Model::spawn(&args.model), worker: Worker::spawn(), report: Report::new("C17"), t_model: 0.0, t_worker: 0.0 };
     let mut rng = Rng::new(args.seed);
     let mut henv = HandlerEnv::new();
+    let t_start = std::time::Instant::now();
+    let mut lap = t_start;
+    let mut laps: Vec<String> = Vec::new();
+    macro_rules! lap {
+        ($name:expr) => {{
+            let now = std::time::Instant::now();
+            laps.push(format!("{} {:.1}s", $name, (now - lap).as_secs_f64()));
+            lap = now;
+        }};
+    }
 
     // ------------------------------------------------ 0. corpus of hostile inputs
     for (bytes, name) in wire::corpus() {
@@ -530,7 +560,7 @@ fn main() {
         cx.no_crash_oracle(&bytes, &ip, &ic, name);
         // the same body through the public handler
         let body = snap::raw::Encoder::new().compress_vec(&bytes).unwrap();
-        let (st, _) = henv.post(body.clone());
+        let (st, _, _) = henv.post(body.clone(), false);
         cx.report.impl_runs += 1;
         let (d, ms) = cx.model.differs(&format!("H d {}", hex(&bytes)), &st);
         if st == "PANIC" {
@@ -540,8 +570,9 @@ fn main() {
         }
     }
 
+    lap!("corpus");
     // ------------------------------------------------ 1. structured remote-write
-    let handler_every = (n_structured / n_handler).max(1);
+    let handler_every = (n_structured / n_handler.max(1)).max(1);
     for k in 0..n_structured {
         let mut r = rng.fork();
         let mut bumps: Vec<String> = Vec::new();
@@ -601,9 +632,10 @@ fn main() {
         // through the public handler
         if k % handler_every == 0 {
             let body = snap::raw::Encoder::new().compress_vec(&enc.buf).unwrap();
-            let (st, flushed) = henv.post(body.clone());
+            let observe = (k / handler_every) % 8 == 0;
+            let (st, buffered, flushed) = henv.post(body.clone(), observe);
             cx.report.impl_runs += 1;
-            cx.report.bump("stream.handler");
+            cx.report.bump(if observe { "stream.handler_rows_read_back" } else { "stream.handler" });
             let (d, ms) = cx.model.differs(&format!("H d {}", hex(&enc.buf)), &st);
             let case = json!({"kind": "handler", "body_hex": hex(&body), "decompressed_hex": hex(&enc.buf), "request": text});
             if st == "PANIC" {
@@ -612,14 +644,19 @@ fn main() {
                 cx.report.disagreement(json!({"correspondence": "handler status model (ProtoConv.handle) vs handle_remote_write", "case": case, "impl": st, "model": ms, "shrunk": case, "oracle_failed": false}));
             }
             if st == "204" && total > 0 {
-                let want = ic.strip_prefix("OK ").unwrap_or("");
-                if flushed.len() != 1 || flushed[0] != want {
-                    cx.report.oracle_violation("", &format!("rows reaching the ingester through handle_remote_write differ from the converted request ({} batches flushed)", flushed.len()), case);
+                if observe {
+                    let want = ic.strip_prefix("OK ").unwrap_or("");
+                    if flushed.len() != 1 || flushed[0] != want {
+                        cx.report.oracle_violation("", &format!("rows reaching the ingester through handle_remote_write differ from the converted request ({} batches flushed)", flushed.len()), case);
+                    }
+                } else if buffered != total {
+                    cx.report.oracle_violation("", &format!("{} samples posted to handle_remote_write, {} rows buffered by the ingester", total, buffered), case);
                 }
             }
         }
     }
 
+    lap!("structured");
     // ------------------------------------------------ 2. malformed remote-write
     for _ in 0..n_malformed {
         let mut r = rng.fork();
@@ -651,7 +688,7 @@ fn main() {
         cx.report.bump(oc);
         cx.no_crash_oracle(&bytes, &ip, &ic, class);
         // a share of them through the handler, some with a broken snappy frame
-        if r.chance(1, 25) {
+        if r.chance(1, 40) {
             let (body, dec) = if r.chance(1, 4) {
                 let junk: Vec<u8> = (0..r.range_usize(0, 20)).map(|_| r.below(256) as u8).collect();
                 let d = snap::raw::Decoder::new().decompress_vec(&junk).ok();
@@ -659,7 +696,7 @@ fn main() {
             } else {
                 (snap::raw::Encoder::new().compress_vec(&bytes).unwrap(), Some(bytes.clone()))
             };
-            let (st, _) = henv.post(body.clone());
+            let (st, _, _) = henv.post(body.clone(), false);
             cx.report.impl_runs += 1;
             cx.report.bump("stream.handler");
             let (d, ms) = cx.model.differs(&format!("H d {}", dec.as_ref().map(|d| hex(d)).unwrap_or("-".into())), &st);
@@ -672,7 +709,9 @@ fn main() {
         }
     }
 
+    lap!("malformed");
     // ------------------------------------------------ 3. OTLP
+    let mut known_reported: std::collections::BTreeMap<&'static str, u32> = std::collections::BTreeMap::new();
     for k in 0..n_otlp {
         use prost::Message;
         let mut r = rng.fork();
@@ -694,7 +733,7 @@ fn main() {
             Ok(Err(e)) => format!("OERR {}", canon::err_code(e)),
             Ok(Ok(b)) => format!("OK {}", otlp::canon_batch(b)),
         };
-        let mut classes = String::new();
+        let classes = cx.model.ask(&format!("K {}", otlp::classifier_text(&req)));
         if let Some(t) = &text {
             let (d, m) = cx.model.differs(&format!("O {}", t), &impl_out);
             if k < 2 {
@@ -703,7 +742,6 @@ fn main() {
             if d {
                 cx.report.disagreement(json!({"correspondence": "OTLP conversion model (Model/Otlp.v) vs export_request_to_arrow", "case": {"kind": "otlp", "hex": enc, "request": t}, "impl": impl_out, "model": m, "shrunk": {"kind": "otlp", "hex": enc}, "oracle_failed": false}));
             }
-            classes = cx.model.ask(&format!("K {}", t));
         } else {
             cx.report.bump("otlp.unmodelled_attribute_values");
         }
@@ -715,11 +753,18 @@ fn main() {
                 _ => "",
             };
             if !class.is_empty() {
+                // every occurrence is counted, the first few are reported (the report keeps 50 entries)
                 cx.report.bump(&format!("known.{}", class));
+                let n = known_reported.entry(class).or_insert(0u32);
+                *n += 1;
+                if *n > 3 {
+                    continue;
+                }
             }
             cx.report.oracle_violation(class, &what, json!({"kind": "otlp", "hex": enc}));
         }
     }
+    lap!("otlp");
     for _ in 0..n_otlp_bytes {
         use prost::Message;
         let mut r = rng.fork();
@@ -744,6 +789,7 @@ fn main() {
         }
     }
 
+    lap!("otlp_bytes");
     // ------------------------------------------------ 4. Arrow Flight DoPut
     for _ in 0..n_flight {
         let mut r = rng.fork();
@@ -774,6 +820,9 @@ fn main() {
         }
     }
 
+    lap!("flight");
+    let _ = lap;
+    cx.report.notes.push(format!("stream times: {}; in check_bytes: model {:.1}s, worker {:.1}s; handler posts {:.1}s", laps.join(", "), cx.t_model, cx.t_worker, henv.t_post));
     cx.report.notes.push(format!("model calls: {}; worker restarts: {}", cx.model.calls, cx.worker.restarts));
     cx.report.write(&args.out);
 }
